@@ -108,6 +108,7 @@ func c09Range(a, b int) string {
 }
 
 type c09Env struct {
+	pendingSink *Sink
 	t      *testing.T
 	art    *c09Art
 	dir    string
@@ -593,6 +594,101 @@ func TestVerifC09(t *testing.T) {
 		e.str.Close()
 		rep.Case(strings.Join(e.ops, ";"), true)
 		rep.Count("overlapping-sinks-witness")
+		allOps = append(allOps, e.ops)
+		allImpl = append(allImpl, e.impl)
+	}
+	// --- directed: the requirement raised TWICE around a full snapshot in flight. SetDueNext(Full);
+	// a full sink is created (captures that requirement); SetDueNext(Full) again (a second load while
+	// the snapshot is being persisted: a NEW requirement); the sink is closed. The requirement must
+	// survive, and an incremental header must be refused afterwards.
+	{
+		e := &c09Env{t: t, art: art, dir: filepath.Join(t.TempDir(), "snaps"), names: map[string]int{}, cover: map[int]int{}, rep: rep}
+		e.emit("reset", "ok")
+		e.open()
+		full := func(h, nat int, index uint64, dbT int) {
+			sI, err := e.str.Create(1, index, 1, raft.Configuration{}, 1, nil)
+			if err != nil {
+				t.Fatal(err)
+			}
+			sink := sI.(*Sink)
+			sink.fatalFn = nil
+			e.names[sink.ID()] = nat
+			e.emit(fmt.Sprintf("create %d %d %d 1", h, nat, index), "ok")
+			str, err := NewSnapshotStreamer(art.dbPath(dbT))
+			if err != nil {
+				t.Fatal(err)
+			}
+			if err := str.Open(); err != nil {
+				t.Fatal(err)
+			}
+			_, werr := io.Copy(sink, str)
+			str.Close()
+			res := "ok"
+			if werr != nil {
+				res = "err " + c09Err(werr.Error())
+			}
+			e.emit(fmt.Sprintf("wfull %d %s - ok", h, c09Range(1, dbT)), res)
+			e.cover[nat] = dbT
+			e.pendingSink = sink
+		}
+		closeSink := func(h int) {
+			res := "ok"
+			if cerr := e.pendingSink.Close(); cerr != nil {
+				res = "err " + c09Err(cerr.Error())
+			}
+			e.emit(fmt.Sprintf("close %d", h), res)
+		}
+		full(1, 1, 10, 2)
+		closeSink(1)
+		e.observe()
+		e.str.SetDueNext(Full)
+		e.emit("setfull", "ok")
+		full(2, 2, 20, 4)
+		e.str.SetDueNext(Full)
+		e.emit("setfull", "ok")
+		closeSink(2)
+		e.hist = []string{"full@10 installed", "SetDueNext(Full)", "create(index=20)", "write-full(ok)", "SetDueNext(Full) again", "close:ok"}
+		if !fileExistsC09(e.str.fullNeededPath) {
+			rep.Fail("requirement-raised-after-capture-cleared-by-full-close", fmt.Sprintf("history %v: FULL_NEEDED is gone", e.hist), map[string]interface{}{"history": e.hist})
+		}
+		e.observe()
+		// an incremental must now be refused at its header
+		sI, err := e.str.Create(1, 30, 1, raft.Configuration{}, 1, nil)
+		if err != nil {
+			t.Fatal(err)
+		}
+		sink := sI.(*Sink)
+		sink.fatalFn = nil
+		e.names[sink.ID()] = 3
+		e.emit("create 3 3 30 1", "ok")
+		walDir := filepath.Join(t.TempDir(), "wal-staging")
+		os.MkdirAll(walDir, 0o755)
+		wp := filepath.Join(walDir, fmt.Sprintf("%024d-%06d.wal", 5, 1))
+		wb, _ := os.ReadFile(art.segPath(5))
+		os.WriteFile(wp, wb, 0o644)
+		c09WriteCRC(wp)
+		ps, err := NewSnapshotPathStreamer(walDir)
+		if err != nil {
+			t.Fatal(err)
+		}
+		_, werr := io.Copy(sink, ps)
+		res := "ok"
+		if werr != nil {
+			res = "err " + c09Err(werr.Error())
+		}
+		e.emit("winc 3 5", res)
+		if werr == nil {
+			rep.Fail("incremental-accepted-while-full-needed:raised-twice-around-full-in-flight", fmt.Sprintf("history %v then an incremental header: accepted", e.hist), map[string]interface{}{"history": e.hist})
+		}
+		cres := "ok"
+		if cerr := sink.Close(); cerr != nil {
+			cres = "err " + c09Err(cerr.Error())
+		}
+		e.emit("close 3", cres)
+		e.observe()
+		e.str.Close()
+		rep.Case(strings.Join(e.ops, ";"), true)
+		rep.Count("double-raise-directed")
 		allOps = append(allOps, e.ops)
 		allImpl = append(allImpl, e.impl)
 	}
